@@ -38,6 +38,20 @@ type HostDeep struct {
 	A [2]HostInner
 }
 
+// an interface with variadic methods and a type with a value method
+type HostLogger interface {
+	Logf(format string, args ...any) string
+	Count(xs ...int) int
+}
+type hostLog struct{ prefix string }
+
+func (l hostLog) Logf(format string, args ...any) string { return l.prefix + fmt.Sprintf(format, args...) }
+func (l hostLog) Count(xs ...int) int                    { return len(xs) }
+
+type HostPt struct{ X, Y int }
+
+func (p HostPt) Sum() int { return p.X + p.Y }
+
 var hostPkg = native.Packages{"host": native.Package{Name: "host", Declarations: hostDecls}}
 
 var hostDecls = native.Declarations{
@@ -56,6 +70,9 @@ var hostDecls = native.Declarations{
 	"Deep":        reflect.TypeOf(HostDeep{}),
 	"Inner":       reflect.TypeOf(HostInner{}),
 	"Err":         errors.New("native error value"),
+	"Logger":      reflect.TypeOf((*HostLogger)(nil)).Elem(),
+	"NewLogger":   func() HostLogger { return hostLog{"> "} },
+	"Pt":          reflect.TypeOf(HostPt{}),
 }
 
 // outcome of a run, canonical
@@ -247,6 +264,13 @@ func faultTable() []faultCase {
 	add("Panic/slice", "panic([]int{1})", pe)
 	add("Panic/recovered", "defer func() { recover() }()\npanic(\"x\")", "^nil$")
 	add("Panic/repanic-in-defer", "defer func() { panic(\"second\") }()\npanic(\"first\")", pe+"second$")
+	add("CallNative/value-method-through-nil-pointer", "var p *host.Pt\nprintln(p.Sum())", pe+"runtime error: invalid memory address or nil pointer dereference$")
+	add("MethodValue/value-method-through-nil-pointer", "var p *host.Pt\nf := p.Sum\nprintln(\"not reached\", f())", pe+"runtime error: invalid memory address or nil pointer dereference$")
+	add("MethodValue/bound-to-a-copy", "p := &host.Pt{X: 1, Y: 2}\nf := p.Sum\np.X = 100\nq := host.Pt{X: 3}\nr := &q\ng := q.Sum\nr.X = 50\npanic(f()*1000 + g())", pe+"3003$")
+	add("CallIndirect-method/variadic-interface-method", "l := host.NewLogger()\npanic(l.Logf(\"%d-%s|\", 1, \"a\") + l.Logf(\"plain|\") + l.Logf(\"%v%v\", []interface{}{2, \"b\"}...))", pe+"> 1-a\\|> plain\\|> 2b$")
+	add("CallIndirect-method/variadic-interface-method-counts", "l := host.NewLogger()\npanic(l.Count()*1000 + l.Count(7)*100 + l.Count(7, 8, 9)*10 + l.Count([]int{1, 2}...))", pe+"132$")
+	add("Defer/interface-method", "l := host.NewLogger()\ndefer l.Logf(\"%d\", 1)\ndefer l.Count()\ndefer l.Count([]int{1}...)", "^nil$")
+	add("Defer/interface-method-nil-interface", "var l host.Logger\ndefer l.Count(1)", pe+"runtime error: invalid memory address or nil pointer dereference$")
 	add("CallNative/panic-string", "host.PanicString()", pe+"native panic$")
 	add("CallNative/panic-error", "host.PanicError()", pe+"native error$")
 	add("CallNative/panic-int", "host.PanicInt()", pe+"7$")
